@@ -117,6 +117,44 @@ func VerifC15_BufferedOutput() {
 	vReach("ran")
 }
 
+// The same for attempts whose output is large (100 kB each) and a writer whose
+// Write calls are scheduling points: however the library hands the block to
+// the writer, the blocks of two tasks that finish together do not mix.
+func VerifC15_BufferedLargeOutput() {
+	vNativeReset()
+	s := newScenario(scenarioOpts{n: 2, outcomes: oNil})
+	s.buffered = true
+	s.payload = strings.Repeat("x", 100000)
+	writes := 0
+	s.writer = slowWriter{w: vWriter("out"), n: &writes}
+	s.build()
+	err := s.run()
+	vAssert("no-error", err == nil)
+	out := vWritten("out")
+	vObserve("outlen", len(out))
+	rest := out
+	ok := true
+	blocks := 0
+	for rest != "" && ok {
+		if !strings.HasPrefix(rest, "<") {
+			ok = false
+			break
+		}
+		end := strings.Index(rest, ">")
+		tag := rest[1:end]
+		whole := "<" + tag + ">" + s.payload + "</" + tag + ">"
+		if !strings.HasPrefix(rest, whole) {
+			ok = false
+			break
+		}
+		rest = rest[len(whole):]
+		blocks++
+	}
+	vAssert("large-attempt-output-contiguous", ok)
+	vAssert("every-attempt-flushed", blocks == 2)
+	vReach("ran")
+}
+
 // A Task shared by two graphs that run concurrently never executes twice at
 // the same time (either graph may be serial).
 func VerifC15_SharedTask() {
